@@ -9,13 +9,13 @@ PROPS = {
         'design_ref': 'DESIGN.md §5 U1, §6 C04',
     },
     'C01': {
-        'verus': ['program_lines', 'program_state', 'interp_api', 'source_map', 'tokenizer_ranges', 'statements', 'arrays_map'],
+        'verus': ['program_lines', 'program_state', 'interp_api', 'source_map', 'tokenizer_ranges', 'statements', 'arrays_map', 'expressions'],
         'kani': ['rng', 'arrays', 'tokenizer_matchers'],
         'level': 'proof',
         'design_ref': 'DESIGN.md §6 C01',
     },
     'C02': {
-        'verus': [],
+        'verus': ['expressions'],
         'kani': ['operators'],
         'level': 'proof',
         'design_ref': 'DESIGN.md §5 K2, §6 C02',
@@ -108,7 +108,7 @@ UNDECIDED = {
         "line-number prefix parsing overflow clause rests on std's str::parse::<u64>",
     ],
     'C02': ["precedence / associativity / parentheses (shape of the eight mutually recursive evaluator tiers over &mut Interpreter): undecided - CBMC cannot execute a 5-token expression through Interpreter, Verus cannot type the evaluators", "ABS / INT (closures in evaluate_function_call), ^ values (powf), PRINT number formatting (f64 Display): undecided", "* and / values beyond the stated small-integer domain: the SAT back end does not decide two 64-bit float multiplier circuits in budget"],
-    'C01': ["tokenizer / DATA parser / statement and expression evaluators: panic-freedom undecided", "native stack exhaustion by nested parentheses: no stack model in either tool", "get_line_with_pointer_caret (fmt): undecided"],
+    'C01': ["panic-freedom is decided for the statement and expression evaluators (units statements, expressions) except evaluate_user_defined_function_call, evaluate_print_statement, end_loop, next_data_element, which enter as assumed contracts; for the tokenizer it is decided for the driver, the punctuation / blank / identifier matchers; string-literal, numeral, REM, DATA matchers and the DATA item parser are undecided", "native stack exhaustion by nested parentheses: no stack model in either tool", "get_line_with_pointer_caret (fmt): undecided"],
     'C03': ["statement dispatch, IF/ELSE token skipping, FOR/NEXT arithmetic in doubles (end_loop), DIM/array statements: undecided", "the IF..THEN GOSUB..ELSE defect named in the property lives in statement.rs and cannot be seen by this check"],
     'C05': ["SourceFileAnalyzer::run (enumerate/zip, tokenizer) - where the two known panics are - is outside both tools: this check cannot report them", "that registered token ranges lie within the line on char boundaries is C13's claim (not applicable)", "per-line token lists, symbol-warning mapping with unwrap: undecided"],
     'C13': ["the complex matchers (keywords via chomp_any_keyword, string literals, numerals, REM, DATA, identifiers) enter as ASSUMED contracts (decline without moving / consume a non-empty in-line stretch / fail without moving with an in-line position); chomp_keyword and chomp_number are checked against them by Kani for bounded input lengths, the others not at all", "character boundaries, ranges ENDING on a non-blank byte for every token kind, REM/DATA extending to the end of their text, and the re-tokenization clause (tokenizing the text of a range yields that one token) are undecided", "remaining_tokens / remaining_tokens_and_ranges (for-loops over `&mut self` as an iterator) are outside Verus; the ordering lemma is stated for two consecutive next() calls"],
